@@ -265,7 +265,10 @@ Fixpoint prefix_b (x y : list bool) : bool :=
    12 what a client received differs from what the proxy wrote (truncated / other close flag) (T11_inflight_completes)
    13 a closing response was written but the client did not see the socket closed            (T11_inflight_completes)
    14 a tunnel (CONNECT 2xx / 101) was opened although closing had been observed before its dial / round
-      trip returned: the client was told so without Connection: close, or the tunnel ran               (T11_no_new_work) *)
+      trip returned: the tunnel ran                                                                   (T11_no_new_work)
+   15 ... : the CLIENT was told so by a complete 2xx without Connection: close                        (T11_no_new_work)
+   Codes 1-8, 10 and 14 are theorems of the LTS (ShutdownTrace.v: no run produces them); 15 and the settled-trace
+   codes 9, 11, 12, 13 concern what clients observed / quiescence and are evaluated only. *)
 Definition pstep (s : pscan) (l : label) : pscan :=
   match l with
   | ClosingSeen => mkps true (ps_close_called s) (ps_ctx s) (ps_conns s) (ps_bad s) (ps_at_sd s) (ps_at_cl s)
@@ -312,7 +315,7 @@ Definition pstep (s : pscan) (l : label) : pscan :=
       setp s i (mkp (p_fb_late p) (p_acc_late p) (p_addr p) true (p_inflight p) (p_rt_late p) (p_must_close p)
                     (p_gone p) (p_connect p) (p_wrote p) (p_cli p) (p_cli_bad p) (p_eof p))
   | CliResp i full ch => let p := getp s i in
-      flag_if (p_connect p && p_rt_late p && p_inflight p && full && negb ch) 14 (
+      flag_if (p_connect p && p_rt_late p && p_inflight p && full && negb ch) 15 (
       setp s i (mkp (p_fb_late p) (p_acc_late p) (p_addr p) (p_closed p) (p_inflight p) (p_rt_late p) (p_must_close p)
                     (p_gone p) (p_connect p) (p_wrote p) (if full then p_cli p ++ [ch] else p_cli p)
                     (p_cli_bad p || negb full) (p_eof p)))
